@@ -159,12 +159,16 @@ func vxCacheFinalEq(c *xsyncMap, r *vxRef, k1, k2 string, now int64) bool {
 }
 
 // VxH_C02_par2: A ∥ B on the cache.
-func VxH_C02_par2(opA, opB int) {
+func VxH_C02_par2(opA, opB, sameKey, seam int) {
 	now := xsync.VxI64("now")
 	xsync.VxAssume(now >= 0 && now < 1<<62)
 	xsync.VxClockSet(now)
 	var led vxLedger
-	c := vxNewCache(1, NoExpiration, func(k string, v interface{}) { led.add(k, v) })
+	cb := func(k string, v interface{}) { led.add(k, v) }
+	c := vxNewCache(1, NoExpiration, cb)
+	if seam == 1 {
+		c = vxNewSeamCache(NoExpiration, cb)
+	}
 	r := &vxRef{def: NoExpiration}
 	k1 := xsync.VxStr("k1")
 	pv := xsync.VxInt("pv")
@@ -175,6 +179,9 @@ func VxH_C02_par2(opA, opB int) {
 		r.put(k1, pv, e)
 	}
 	kA, kB := xsync.VxStr("kA"), xsync.VxStr("kB")
+	if sameKey == 1 {
+		xsync.VxAssume(kA == kB)
+	}
 	nvA, nvB := xsync.VxInt("nvA"), xsync.VxInt("nvB")
 	xsync.VxAssume(nvA != nvB && nvA != pv && nvB != pv)
 	dA, dB := time.Duration(xsync.VxI64("dA")), time.Duration(xsync.VxI64("dB"))
